@@ -15,7 +15,7 @@
    every output accepted by fluentdforward VerifyConfig; the two repairs of this property in place.
    [ginv] / [cinv] = the state invariant of the agent / of one connection (hold initially: C07_initial_state). *)
 From SV Require Import Model.Common.
-From SV Require Model.Utf8 Model.Parser Model.Transforms Model.Routing Model.Serializer Model.PipelineSerializer
+From SV Require Model.Utf8 Model.Parser Model.ParseTime Model.Transforms Model.Routing Model.Serializer Model.PipelineSerializer
                Model.Packer Model.Framing Spec.Utf8Spec Spec.SyslogSpec Spec.FramingSpec Spec.SerializerSpec Spec.MsgpackSpec
                Proofs.ParserProofs Proofs.PipelineSerializerProofs Proofs.TagTemplateProofs.
 From SV Require Import Model.Pipeline Proofs.PipelineProofs Proofs.PipelineWitnesses.
@@ -358,3 +358,43 @@ Theorem C07_label_cut_200_variant_refuted :
   with_label_values (metric_label_values_cut 200 [straddling_value 200]) = Panic site_label.
 Proof. exact label_cut_200_refuted. Qed.
 Print Assumptions C07_label_cut_200_variant_refuted.
+
+(* ================================================================================================ *)
+(* Follow-up (wave-3 miss 7): the parseTime step, through the model of parseFractionNanos.            *)
+
+(* 16. C07_pipeline_total runs C13's transform_parse_time inside [run_parse_time]; stated on its own: for EVERY byte
+   string in the time field (every fraction length, every zone form, truncated, over-long ...) the transform is not a
+   panic; for every record whose field array holds the key, the step returns normally and keeps the array; and the
+   model of parseFractionNanos itself (a fixed nine-iteration loop, no indexing) never panics. *)
+Theorem C07_parse_time_step_total :
+  (forall local_off (v : bytes),
+     match ParseTime.transform_parse_time local_off v with ParseTime.TpPanic _ => False | _ => True end) /\
+  (forall local_off loc label cs (p : prec),
+     (loc < length (T.r_fields (fst p)))%nat ->
+     exists cs' p', run_parse_time local_off loc label cs p = Ok (cs', p') /\
+                    length (T.r_fields (fst p')) = length (T.r_fields (fst p))) /\
+  (forall frac, match ParseTime.parse_fraction_nanos frac with Panic _ => False | _ => True end).
+Proof. exact (conj parse_time_value_total (conj parse_time_step_total parse_fraction_total)). Qed.
+Print Assumptions C07_parse_time_step_total.
+
+(* 17. The variant of parseFractionNanos that scales by a ten-entry table with the guard "len(digits) > len(table)"
+   (Model/PipelineVariants.v): it PANICS for every fraction of exactly ten characters, and is the real function for every
+   other length - the defect lives in one length class.  Witness through the whole transform and the whole pipeline:
+   "2019-08-15T15:50:49.1234567891+03:00" is parsed by the real transform (record delivered) and is an index-out-of-range
+   panic in the variant; nine and eleven digits pass in the variant. *)
+Theorem C07_fraction_table_variant_refuted :
+  (forall c ds, length ds = 10%nat -> parse_fraction_nanos_table (c :: ds) = Panic site_frac_table) /\
+  (forall c ds, length ds <> 10%nat -> parse_fraction_nanos_table (c :: ds) = ParseTime.parse_fraction_nanos (c :: ds)) /\
+  (forall off t, parse_rfc3339_with ParseTime.parse_fraction_nanos off t = ParseTime.parse_rfc3339 off t) /\
+  ParseTime.transform_parse_time 0 (ts_with_fraction ten_digits) = ParseTime.TpSet 1565873449 123456789 /\
+  match process_record O (ex_cfg true true) g_init (new_conn (ex_cfg true true)) (1600000000, 0)%Z 0%Z rec_ten_digit_fraction with
+  | Ok (_, _, RPassed 0 [s] _) => s <> []
+  | _ => False
+  end /\
+  transform_parse_time_with parse_fraction_nanos_table 0 (ts_with_fraction ten_digits) = ParseTime.TpPanic site_frac_table /\
+  transform_parse_time_with parse_fraction_nanos_table 0 (ts_with_fraction (firstn 9 ten_digits)) = ParseTime.TpSet 1565873449 123456789 /\
+  transform_parse_time_with parse_fraction_nanos_table 0 (ts_with_fraction (ten_digits ++ [50]%N)) = ParseTime.TpSet 1565873449 123456789.
+Proof.
+  exact (conj table_variant_panics_at_10 (conj table_variant_agrees_elsewhere (conj parse_rfc3339_with_real fraction_table_variant_refuted))).
+Qed.
+Print Assumptions C07_fraction_table_variant_refuted.
